@@ -15,7 +15,9 @@ package main
 // Stores, inlined bodies and callee contracts act on the private keys exactly as on every other key.
 
 import (
+	"fmt"
 	"go/types"
+	"os"
 	"strings"
 
 	"golang.org/x/tools/go/ssa"
@@ -57,10 +59,14 @@ func (g *Gen) writerReach(keys map[string]bool) map[*ssa.Function]bool {
 	all := ssautil.AllFunctions(g.rootFn.Prog)
 	callers := map[*ssa.Function][]*ssa.Function{}
 	var work []*ssa.Function
+	why := map[*ssa.Function]string{}
 	mark := func(f *ssa.Function) {
 		if !g.wreach[f] {
 			g.wreach[f] = true
 			work = append(work, f)
+			if why[f] == "" {
+				why[f] = "writes"
+			}
 		}
 	}
 	for f := range all {
@@ -69,12 +75,20 @@ func (g *Gen) writerReach(keys map[string]bool) map[*ssa.Function]bool {
 				switch x := ins.(type) {
 				case *ssa.Store:
 					if fa, ok := x.Addr.(*ssa.FieldAddr); ok {
+						if _, fresh := fa.X.(*ssa.Alloc); fresh {
+							// a field of an object this very function allocated: no object that existed before is written
+							break
+						}
 						T := fa.X.Type().Underlying().(*types.Pointer).Elem()
 						if _, ok := T.Underlying().(*types.Struct); ok && keys[g.fieldKeyName(T, fa.Field)] {
 							mark(f)
 						}
 					}
 				case *ssa.MapUpdate:
+					if _, fresh := x.Map.(*ssa.MakeMap); fresh {
+						// a map this very function made: no map that existed before is written
+						break
+					}
 					if mt, ok := x.Map.Type().Underlying().(*types.Map); ok {
 						if keys["Md|"+typeKey(mt.Key())+"|"+typeKey(mt.Elem())] || keys["Mv|"+typeKey(mt.Key())+"|"+typeKey(mt.Elem())] {
 							mark(f)
@@ -129,11 +143,43 @@ func (g *Gen) writerReach(keys map[string]bool) map[*ssa.Function]bool {
 		f := work[len(work)-1]
 		work = work[:len(work)-1]
 		for _, c := range callers[f] {
+			if why[c] == "" {
+				why[c] = "-> " + f.String()
+			}
 			mark(c)
 		}
 		if p := f.Parent(); p != nil {
 			// a closure that writes: its creator hands it out
+			if why[p] == "" {
+				why[p] = "-> " + f.String()
+			}
 			mark(p)
+		}
+	}
+	if fn := os.Getenv("GOVC_WHYWRITER"); fn != "" {
+		for f := range g.wreach {
+			if strings.Contains(f.String(), fn) {
+				var ks []string
+				for k := range keys {
+					ks = append(ks, k)
+				}
+				cur, path := f, f.String()
+				for i := 0; i < 12 && strings.HasPrefix(why[cur], "-> "); i++ {
+					path += " " + why[cur]
+					var nxt *ssa.Function
+					for c := range g.wreach {
+						if "-> "+c.String() == why[cur] {
+							nxt = c
+							break
+						}
+					}
+					if nxt == nil {
+						break
+					}
+					cur = nxt
+				}
+				fmt.Fprintf(os.Stderr, "WHYWRITER %v: %s\n", ks, path)
+			}
 		}
 	}
 	return g.wreach
@@ -144,16 +190,86 @@ func (g *Gen) fieldKeyName(T types.Type, idx int) string {
 	return "H|" + typeKey(T) + "|" + st.Field(idx).Name()
 }
 
-// privateSkip: the keys an unknown call at ins leaves alone.
+// privateSkip: the keys an unknown call at ins leaves alone - every private key except those for which the static
+// callee can reach a writer.
 func (fc *FnCtx) privateSkip(ins ssa.Instruction) map[string]bool {
+	return fc.privateSkipFn(ins, nil)
+}
+
+// privateSkipFn: callee is the function known to run at ins (a resolved closure, say) when the call is not static.
+func (fc *FnCtx) privateSkipFn(ins ssa.Instruction, callee *ssa.Function) map[string]bool {
 	keys := fc.privateKeys()
 	if len(keys) == 0 {
 		return nil
 	}
-	if cc := callCommonOf(ins); cc != nil && !cc.IsInvoke() {
-		if sc := cc.StaticCallee(); sc != nil && fc.g.writerReach(keys)[sc] {
-			return nil
+	sc := callee
+	cc := callCommonOf(ins)
+	if sc == nil && cc != nil && !cc.IsInvoke() {
+		sc = cc.StaticCallee()
+	}
+	out := map[string]bool{}
+	if sc == nil {
+		if cc == nil || cc.IsInvoke() {
+			return keys
+		}
+		// a function value of unknown identity: it may be any closure of the function under verification
+		root := fc
+		for root.parent != nil {
+			root = root.parent
+		}
+		top := outermost(root.fn)
+		for k := range keys {
+			local := false
+			for f := range fc.g.writerReachKey(k) {
+				if f.Parent() != nil && outermost(f) == top {
+					local = true
+					break
+				}
+			}
+			if !local {
+				out[k] = true
+			}
+		}
+		return out
+	}
+	for k := range keys {
+		if !fc.g.writerReachKey(k)[sc] {
+			out[k] = true
 		}
 	}
-	return keys
+	return out
+}
+
+func outermost(f *ssa.Function) *ssa.Function {
+	for f != nil && f.Parent() != nil {
+		f = f.Parent()
+	}
+	return f
+}
+
+// writerReachKey: writerReach for a single key (cached).
+func (g *Gen) writerReachKey(k string) map[*ssa.Function]bool {
+	if g.wreachKey == nil {
+		g.wreachKey = map[string]map[*ssa.Function]bool{}
+	}
+	if r, ok := g.wreachKey[k]; ok {
+		return r
+	}
+	saved := g.wreach
+	g.wreach = nil
+	ks := map[string]bool{k: true}
+	// the domain and value arrays of a map type are written together
+	if strings.HasPrefix(k, "Mv|") {
+		ks["Md|"+k[3:]] = true
+	}
+	if strings.HasPrefix(k, "Md|") {
+		ks["Mv|"+k[3:]] = true
+	}
+	if strings.HasPrefix(k, "UMv|") {
+		ks["UMd|"+k[4:]] = true
+	}
+	r := g.writerReach(ks)
+	g.wreachKey[k] = r
+	g.wreach = saved
+	return r
 }
